@@ -54,7 +54,7 @@ Section Lines.
   Lemma Inv_set_lines s c L : Inv F s -> length c = length (cur s) ->
     (forall k lp, dict_get Z.eqb L k = Some lp -> lp_ok F k lp) -> Inv F (set_lines (set_cur s c) L).
   Proof.
-    intros [I1 I2 I3 I4 I5 I6 I7 I8 I9 I10 I11 I12] Hl HL. constructor; scbn; auto. congruence.
+    intros [I1 I2 I3 I4 I5 I6 I7 I8 I9 I10 I11 I12 I13] Hl HL. constructor; scbn; auto. congruence.
   Qed.
 
   Lemma ext_set_lines s c L : ext s (set_lines (set_cur s c) L).
